@@ -1,12 +1,18 @@
 use crate::obl::Obl;
+pub mod c01;
 pub mod c02;
 pub mod c08;
+pub mod c10;
 pub mod c14;
+pub mod c15;
 
 pub fn all() -> Vec<Obl> {
     let mut l = Vec::new();
+    c01::register(&mut l);
     c02::register(&mut l);
     c08::register(&mut l);
+    c10::register(&mut l);
     c14::register(&mut l);
+    c15::register(&mut l);
     l
 }
